@@ -236,6 +236,7 @@ fn main() {
             "C14" => vharness::checks::c14::run(tier),
             "C15" => vharness::checks::c15::run(tier),
             "C16" => vharness::checks::c16::run(tier),
+            "C16A" => vharness::checks::c16a::run(tier),
             "C17" => vharness::checks::c17::run(tier),
             "C18" => vharness::checks::c18::run(tier),
             "C19" => vharness::checks::c19::run(tier),
